@@ -801,6 +801,7 @@ def run_C10(ctx):
         hist, total, covered = tour.plan(edges, kind)
         for first in ("P3", "PX", "PY"):          # refused by the default verifier: no VM object comes to exist
             hist.append({"kind": kind, "first": first, "calls": []})
+        hist += tour.memo_histories(kind)           # outcomes that depend on what the same object accepted before
         path = os.path.join(ctx.workdir, f"tour.{kind}.script.ndjson")
         open(path, "w").write("\n".join(json.dumps(h) for h in hist) + "\n")
         ctx.extra["transition_cover"][kind] = {"abstract_states": r.distinct, "transitions": total, "planned": covered,
